@@ -26,6 +26,8 @@ ThreadsWhy(e) ==
      ELSE <<>>
 Why(e) == CASE e.ev = "Replay" -> ReplayWhy(e)
             [] e.ev = "Block" -> BlockWhy(e) \o (IF BlankLineOk(e.block) \/ e.block = <<>> THEN <<>> ELSE <<"NoBlankLine">>)
+            \* an event is refused by the encoder exactly when its encoding does not fit the 65 528-byte buffer
+            [] e.ev = "TooBig" -> IF e.encLen > 65528 THEN <<>> ELSE <<"RefusedAlthoughItFits", e.encLen>>
             [] e.ev = "Threads" -> ThreadsWhy(e)
             [] OTHER -> <<>>
 TInit == l = 1 /\ bad = {} /\ nvalid = 0
